@@ -23,7 +23,7 @@ const INTERESTING: [u8; 14] = [0, 1, 2, 3, 7, 8, 0x3f, 0x40, 0x41, 0x7f, 0x80, 0
 pub fn mutate(rng: &mut Rng, h: &Honest, other: Option<&Honest>) -> (Vec<u8>, String) {
     let mut b = h.bytes.clone();
     let comps = &h.layout;
-    let kind = rng.usize(17);
+    let kind = rng.usize(18);
     let pick_comp = |rng: &mut Rng| {
         let i = rng.usize(comps.len() - 1);
         (comps[i].0, comps[i].1, comps[i + 1].1)
@@ -108,6 +108,44 @@ pub fn mutate(rng: &mut Rng, h: &Honest, other: Option<&Honest>) -> (Vec<u8>, St
             (b, format!("nested-header:{name}:{old:#x}->{v:#x}"))
         },
         14..=16 => (b, "unchanged".into()),
+        17 => {
+            // an out-of-domain frame section whose frame-size byte is changed TOGETHER with its
+            // payload (length prefix consistent): frame size v, v copies of one frame row
+            match h.nested.iter().find(|(n, _)| n == "ood_frame.trace-frame-size").map(|(_, at)| *at) {
+                Some(tfs) if tfs >= 2 && tfs + 1 < b.len() => {
+                    let s0 = tfs - 2;
+                    let tl = u16::from_le_bytes([b[s0], b[s0 + 1]]) as usize;
+                    let c0 = s0 + 2 + tl;
+                    let constraint = rng.bool();
+                    let (sec, len) = if constraint {
+                        match b.get(c0..c0 + 2) {
+                            Some(x) => (c0, u16::from_le_bytes([x[0], x[1]]) as usize),
+                            None => (s0, tl),
+                        }
+                    } else {
+                        (s0, tl)
+                    };
+                    if len < 3 || sec + 2 + len > b.len() {
+                        (b, "unchanged".into())
+                    } else {
+                        let unit = (len - 1) / 2;
+                        let v = *rng.pick(&[0u8, 1, 1, 3, 4, 255]);
+                        let copies = (v as usize).min(65534 / unit.max(1));
+                        let row = b[sec + 3..sec + 3 + unit].to_vec();
+                        let mut payload = vec![v];
+                        for _ in 0..copies {
+                            payload.extend_from_slice(&row);
+                        }
+                        let mut out = b[..sec].to_vec();
+                        out.extend_from_slice(&(payload.len() as u16).to_le_bytes());
+                        out.extend_from_slice(&payload);
+                        out.extend_from_slice(&b[sec + 2 + len..]);
+                        (out, format!("ood-frame-resized:{}:frame-size-{v}", if sec == s0 { "trace" } else { "constraint" }))
+                    }
+                },
+                _ => (b, "unchanged".into()),
+            }
+        },
         13 => {
             // blowup factor lowered to the minimum the options allow (other context fields kept)
             let c = &h.proof.context;
